@@ -67,7 +67,8 @@ func (b Bytes) TrimSpacesFromLeft() Bytes {
 			return b[i:]
 		}
 	}
-	return b
+	// Nothing but blanks: nothing is left.
+	return b[len(b):]
 }
 
 func (b Bytes) CountSpacesFromLeft() int {
@@ -76,7 +77,7 @@ func (b Bytes) CountSpacesFromLeft() int {
 			return i
 		}
 	}
-	return 0
+	return len(b)
 }
 
 // OneOf checks current bytes sequence equal to at least one of specified strings.
